@@ -150,6 +150,37 @@ func main() {
 			}
 		})
 
+		// long reasons: an ASCII reason of every length up to 123 with one position (or two
+		// adjacent ones) replaced by a malformed byte, a truncated sequence or a valid 2-byte
+		// character - wherever it sits relative to any block a validator may scan at a time
+		r.Part("E2c-long-reasons-one-bad-position", func(t *explore.T) {
+			subs := [][]byte{{0xff}, {0x80}, {0xc3}, {0xc3, 0xa9}, {0xe2, 0x82}, {0xc0, 0x80}}
+			t.Par(124, func(L int) {
+				for i := 0; i < L; i++ {
+					for si, sub := range subs {
+						if i+len(sub) > L {
+							continue
+						}
+						i, si, sub := i, si, sub
+						t.Do(func() string { return fmt.Sprintf("reason of %d ASCII bytes with %x at offset %d", L, sub, i) }, func() *explore.Fail {
+							b := []byte(strings.Repeat("going away, bye! ", 8)[:L])
+							copy(b[i:], sub)
+							reason := string(b)
+							err := ws.CheckCloseFrameData(1000, reason)
+							if ok := utf8.ValidString(reason); ok != (err == nil) {
+								if ok {
+									return explore.Failf("refuses-valid-close", "reason %q: %v", reason, err)
+								}
+								return explore.Failf("accepts-bad-utf8-reason", "reason %q accepted (substitute #%d at offset %d of %d)", reason, si, i, L)
+							}
+							t.Outcome(fmt.Sprintf("valid=%v", err == nil))
+							return nil
+						})
+					}
+				}
+			})
+		})
+
 		r.Part("E2-CheckCloseFrameData", func(t *explore.T) {
 			reasons := []string{"", "ok", "€", "\xff", "\xe2\x82", "\xc0\x80", "\xed\xa0\x80"}
 			for c := 0; c < 65536; c++ {
